@@ -40,6 +40,7 @@ def run(chk):
     d5_getitem(chk, repo)
     d6_region2slices(chk, repo)
     d7_resample(chk, repo)
+    corner_copies_hold_floats(chk, repo, "C07", ["mesh.Mesh._sel_convert_input", "mesh.Mesh.sel", "mesh.Mesh.pad"])
     chk.trust("np.pad pads each axis by the (before, after) widths given for it; basic slicing selects the half-open index range")
     chk.assume("which cell contains a coordinate that is not exactly representable, nearest-cell ties and point-wise equality of "
                "values are not decided")
@@ -424,3 +425,50 @@ def d7_resample(chk, repo):
         for kw in ("nvdim", "vdims", "unit", "dtype", "vdim_mapping"):
             chk.ob(f"field.Field.resample::kw={kw}", a.get(kw) is not None and v.eq(a[kw], v.spec(f"self.{kw}")), "C07.D7",
                    f"{kw}={v.show(a.get(kw))}", v.f, r, nontrivial=False)
+
+
+# ------------------------------------------------------------------ dtype of modified corner copies
+def corner_copies_hold_floats(chk, repo, pid, quals, floor=8):
+    """A coordinate written into a copy of pmin/pmax must not be truncated: region corners may be integer arrays, so
+    the copy has to be converted (astype(float) or astype(max(corner dtype, type(value)))) before an element is stored."""
+    from ..lib import alias_term
+    chk.rule(f"{pid}.corner-dtype", "every element store into a copy of a region corner goes into a float-capable copy "
+                                    "(`.astype(float)` or `.astype(max(corner.dtype, type(value)))`): integer-cornered regions "
+                                    "must not truncate the stored coordinate")
+    n = 0
+    for q in quals:
+        v = FV(repo, q)
+        for st in v.stmts():
+            tgt = None
+            if isinstance(st, ast.Assign) and len(st.targets) == 1 and isinstance(st.targets[0], ast.Subscript):
+                tgt = st.targets[0]
+            elif isinstance(st, ast.AugAssign) and isinstance(st.target, ast.Subscript):
+                tgt = st.target
+            if tgt is None or not isinstance(tgt.value, ast.Name):
+                continue
+            bt = alias_term(v, tgt.value, at=st)
+            bases = [b for b in strip_stores(v.ctx, bt)]
+            for b in bases:
+                heads = v.ctx.heads_in(b)
+                if not any(h[0] == "attr" and h[1] in ("_pmin", "_pmax") for h in heads) and \
+                        not any(h[0] in ("attr", "prop") and h[1] in ("pmin", "pmax") for h in heads):
+                    continue
+                n += 1
+                ok = False
+                for aid in v.ctx.all_atoms(b):
+                    hd, ar = v.ctx.atoms[aid]
+                    if hd[0] == "call" and hd[1] in (".astype", "astype") and len(ar) >= 2:
+                        d = ar[1]
+                        hdt = v.ctx.head_of(d)
+                        if hdt and hdt[0] == "sym" and hdt[1] in ("float", "np.float64"):
+                            ok = True
+                        if hdt and hdt[0] == "str" and hdt[1] in ("float", "float64"):
+                            ok = True
+                        c = decode_call(v.ctx, d)
+                        if c and c[0] == "max" and any((decode_call(v.ctx, x) or ("",))[0] == "type" for x in c[1]):
+                            ok = True
+                chk.ob(f"{q}::corner-copy-float-capable::line{n}", ok, f"{pid}.corner-dtype",
+                       f"`{v.src(st)[:80]}` stores into {v.show(b)[:90]}, a copy of a region corner that keeps the corner's "
+                       "dtype: with integer corners the stored coordinate is truncated (the selected plane / face moves to "
+                       "another cell)", v.f, st)
+    chk.require(n >= floor, f"{pid}.corner-dtype: only {n} corner-copy stores found ({floor} confirmed by reading)")
